@@ -40,6 +40,8 @@ type e2eConfig struct {
 	canary  int
 	spill   int
 	fastKeepalive bool
+	delayMethod string // DLY<ms>:<Method>: every call of that worker RPC is held back for <ms> before it is served
+	delayMs     int
 }
 
 func parseConfig(s string) e2eConfig {
@@ -55,6 +57,10 @@ func parseConfig(s string) e2eConfig {
 			c.noshuf = true
 		case t == "KA":
 			c.fastKeepalive = true
+		case strings.HasPrefix(t, "DLY"):
+			if i := strings.Index(t, ":"); i > 3 {
+				c.delayMs, c.delayMethod = atoi(t[3:i]), t[i+1:]
+			}
 		case strings.HasPrefix(t, "CH"):
 			c.chunk = atoi(t[2:])
 		case strings.HasPrefix(t, "CA"):
@@ -103,6 +109,18 @@ func startSession(cfg e2eConfig) *e2eSession {
 	if cfg.bm {
 		s.sys = testsystem.New()
 		s.sys.Machineprocs = cfg.procs
+		if cfg.delayMs > 0 && testsystem.RPCHook == nil {
+			// a slow network for one RPC: nothing is lost or faked, the call is only served later
+			dm, dd := cfg.delayMethod, time.Duration(cfg.delayMs)*time.Millisecond
+			testsystem.RPCHook = func(addr, method, phase string, ordinal int) bool {
+				if method == dm && phase == "before" {
+					time.Sleep(dd)
+				}
+				return false
+			}
+			undo0 := s.undo
+			s.undo = func() { testsystem.RPCHook = nil; undo0() }
+		}
 		if cfg.fastKeepalive {
 			// machine-loss cases: a killed machine must be noticed quickly
 			s.sys.KeepalivePeriod = 500 * time.Millisecond
